@@ -2,6 +2,7 @@ import Martian.Invocation
 import Martian.InvocationStr
 import Martian.JsonBytes
 import Martian.InvocationText
+import Martian.InvocationJson
 import Driver.Util
 
 /-!
@@ -266,6 +267,12 @@ def handle (op : String) (args : List String) : Option String :=
   | "unq", [t] => do
     let t ← bytesOfHex t
     pure (optHex (Martian.Lexer.unquoteBytes t))
+  | "jsontree", [b] => do
+    -- bytes of a JSON value → the invocation tree (grammar model + ParseFloat rounding): `some <json>` | `none`
+    let b ← bytesOfHex b
+    pure (match Martian.InvocationJson.treeOfBytes b with
+      | some j => "some " ++ join (showJ j)
+      | none => "none")
   | "textleg", [g, e] => do
     -- the REAL text leg on one expression: `wf=<b> fok=<b> text=<hex> back=<exp>|none`
     let g ← parseG g
